@@ -9,8 +9,10 @@ import (
 
 // Accessors for the verification harnesses (the REPL helpers are unexported).
 
-func VerifProcessInput(input string, p Parser, m *vm.Type, doOut bool) { processInput(input, p, m, doOut) }
-func VerifReportError(err ParserError, line string)                   { reportError(err, line) }
+func VerifProcessInput(input string, p Parser, m *vm.Type, doOut bool) {
+	processInput(input, p, m, doOut)
+}
+func VerifReportError(err ParserError, line string) { reportError(err, line) }
 
 // VerifLoop runs the REPL/file loop over the given lines (each WITH its line terminator handling
 // done by the reader model: the REPL reader returns lines without newline, the file reader with).
